@@ -365,7 +365,11 @@ fn main() {
         }
         i += 1;
     }
-    let out = b.build();
+    // C07: build() must return for every input and every combination of settings (the documented panics sit in the constructor and the threshold setters)
+    let out = match std::panic::catch_unwind(std::panic::AssertUnwindSafe(|| b.build())) {
+        Ok(out) => out,
+        Err(e) => { println!("FAIL: build() panicked: {}", e.downcast_ref::<String>().cloned().or_else(|| e.downcast_ref::<&str>().map(|x| x.to_string())).unwrap_or_default().lines().next().unwrap_or("")); std::process::exit(1) }
+    };
     println!("regex: {out}");
     let mut ok = true;
     let re = match Regex::new(&out) {
